@@ -1,1 +1,302 @@
-//! (stub)
+//! Independent BCF2 structure reader, written from the BCF 2.2 specification (VCF spec §6), no
+//! noodles code. It works on the *uncompressed* stream (inflate the BGZF file with
+//! `oracle::bgzf_walk` first) and keeps every typed value raw, sentinels included, so that a check
+//! can look at the stored width and at the missing / end-of-vector codes directly.
+//!
+//! Facts used (all from §6.3 of the specification):
+//!   file    = "BCF" 2 <minor> | l_text:u32 | text (NUL-terminated) | records
+//!   record  = l_shared:u32 l_indiv:u32 | CHROM:i32 POS:i32(0-based) rlen:i32 QUAL:f32
+//!             n_allele<<16|n_info:u32  n_fmt<<24|n_sample:u32 | ID | alleles… | FILTER | INFO (key,value)… |
+//!             FORMAT: key, type byte, n_sample × len values
+//!   typed   = byte (len<<4 | type), len 15 ⇒ the real length follows as a typed integer;
+//!             type 0 missing/flag, 1 int8, 2 int16, 3 int32, 5 float, 7 characters
+//!   integers: missing = MIN, end-of-vector = MIN+1, MIN+2..MIN+7 reserved (per width)
+//!   floats:   missing = 0x7F800001, end-of-vector = 0x7F800002
+
+#[derive(Clone, Debug, PartialEq)]
+pub enum Typed {
+    /// type 0
+    Missing,
+    Int8(Vec<i8>),
+    Int16(Vec<i16>),
+    Int32(Vec<i32>),
+    /// bit patterns
+    Float(Vec<u32>),
+    Str(Vec<u8>),
+}
+
+pub const FLOAT_MISSING: u32 = 0x7F80_0001;
+pub const FLOAT_EOV: u32 = 0x7F80_0002;
+
+/// One stored integer, widened, with its role decoded by the width's sentinels.
+#[derive(Clone, Copy, Debug, PartialEq, Eq)]
+pub enum IntCell {
+    Value(i32),
+    Missing,
+    EndOfVector,
+    Reserved(i32),
+}
+
+impl Typed {
+    pub fn type_name(&self) -> &'static str {
+        match self {
+            Typed::Missing => "missing",
+            Typed::Int8(_) => "int8",
+            Typed::Int16(_) => "int16",
+            Typed::Int32(_) => "int32",
+            Typed::Float(_) => "float",
+            Typed::Str(_) => "string",
+        }
+    }
+    pub fn len(&self) -> usize {
+        match self {
+            Typed::Missing => 0,
+            Typed::Int8(v) => v.len(),
+            Typed::Int16(v) => v.len(),
+            Typed::Int32(v) => v.len(),
+            Typed::Float(v) => v.len(),
+            Typed::Str(v) => v.len(),
+        }
+    }
+    pub fn is_empty(&self) -> bool {
+        self.len() == 0
+    }
+    pub fn is_int(&self) -> bool {
+        matches!(self, Typed::Int8(_) | Typed::Int16(_) | Typed::Int32(_))
+    }
+    /// Integer cells with the sentinels of the stored width applied.
+    pub fn int_cells(&self) -> Option<Vec<IntCell>> {
+        fn cell(v: i64, min: i64) -> IntCell {
+            if v == min {
+                IntCell::Missing
+            } else if v == min + 1 {
+                IntCell::EndOfVector
+            } else if v <= min + 7 {
+                IntCell::Reserved(v as i32)
+            } else {
+                IntCell::Value(v as i32)
+            }
+        }
+        match self {
+            Typed::Int8(v) => Some(v.iter().map(|&x| cell(x as i64, i8::MIN as i64)).collect()),
+            Typed::Int16(v) => Some(v.iter().map(|&x| cell(x as i64, i16::MIN as i64)).collect()),
+            Typed::Int32(v) => Some(v.iter().map(|&x| cell(x as i64, i32::MIN as i64)).collect()),
+            _ => None,
+        }
+    }
+    /// A scalar non-negative integer (dictionary index, length).
+    pub fn as_index(&self) -> Option<usize> {
+        match self.int_cells()?.as_slice() {
+            [IntCell::Value(n)] if *n >= 0 => Some(*n as usize),
+            _ => None,
+        }
+    }
+}
+
+#[derive(Clone, Debug)]
+pub struct RawFormat {
+    pub key: Typed,
+    /// one typed vector per sample, all of the declared type and length
+    pub samples: Vec<Typed>,
+    pub len: usize,
+}
+
+#[derive(Clone, Debug)]
+pub struct RawRecord {
+    pub l_shared: u32,
+    pub l_indiv: u32,
+    pub chrom: i32,
+    pub pos: i32,
+    pub rlen: i32,
+    pub qual: u32,
+    pub n_info: u16,
+    pub n_allele: u16,
+    pub n_sample: u32,
+    pub n_fmt: u8,
+    pub id: Typed,
+    pub alleles: Vec<Typed>,
+    pub filter: Typed,
+    pub info: Vec<(Typed, Typed)>,
+    pub format: Vec<RawFormat>,
+}
+
+#[derive(Clone, Debug)]
+pub struct RawFile {
+    pub major: u8,
+    pub minor: u8,
+    /// header text without the terminating NUL(s)
+    pub text: Vec<u8>,
+    /// offset of the first record in the stream
+    pub records_at: usize,
+    pub records: Vec<Result<RawRecord, String>>,
+    pub ranges: Vec<std::ops::Range<usize>>,
+}
+
+struct Cur<'a> {
+    b: &'a [u8],
+    at: usize,
+}
+
+impl<'a> Cur<'a> {
+    fn take(&mut self, n: usize) -> Result<&'a [u8], String> {
+        if self.b.len() - self.at < n {
+            return Err(format!("need {n} bytes at offset {}, {} left", self.at, self.b.len() - self.at));
+        }
+        let s = &self.b[self.at..self.at + n];
+        self.at += n;
+        Ok(s)
+    }
+    fn u8(&mut self) -> Result<u8, String> {
+        Ok(self.take(1)?[0])
+    }
+    fn u16(&mut self) -> Result<u16, String> {
+        Ok(u16::from_le_bytes(self.take(2)?.try_into().unwrap()))
+    }
+    fn u32(&mut self) -> Result<u32, String> {
+        Ok(u32::from_le_bytes(self.take(4)?.try_into().unwrap()))
+    }
+    fn i32(&mut self) -> Result<i32, String> {
+        Ok(i32::from_le_bytes(self.take(4)?.try_into().unwrap()))
+    }
+    fn done(&self) -> bool {
+        self.at == self.b.len()
+    }
+    /// type byte (+ overflow length) → (type code, length)
+    fn descriptor(&mut self) -> Result<(u8, usize), String> {
+        let d = self.u8()?;
+        let ty = d & 0x0F;
+        let mut len = (d >> 4) as usize;
+        if len == 15 {
+            let (t2, l2) = {
+                let d2 = self.u8()?;
+                (d2 & 0x0F, (d2 >> 4) as usize)
+            };
+            if l2 != 1 {
+                return Err(format!("overflow length is a typed value of length {l2}, expected a scalar"));
+            }
+            let n: i64 = match t2 {
+                1 => self.u8()? as i8 as i64,
+                2 => i16::from_le_bytes(self.take(2)?.try_into().unwrap()) as i64,
+                3 => self.i32()? as i64,
+                t => return Err(format!("overflow length has type {t}, expected an integer type")),
+            };
+            if n < 15 {
+                return Err(format!("overflow length {n} < 15"));
+            }
+            len = n as usize;
+        }
+        Ok((ty, len))
+    }
+    fn values(&mut self, ty: u8, len: usize) -> Result<Typed, String> {
+        Ok(match ty {
+            0 => {
+                if len != 0 {
+                    return Err(format!("type 0 with length {len}"));
+                }
+                Typed::Missing
+            }
+            1 => Typed::Int8(self.take(len)?.iter().map(|&b| b as i8).collect()),
+            2 => Typed::Int16(self.take(len * 2)?.chunks(2).map(|c| i16::from_le_bytes(c.try_into().unwrap())).collect()),
+            3 => Typed::Int32(self.take(len * 4)?.chunks(4).map(|c| i32::from_le_bytes(c.try_into().unwrap())).collect()),
+            5 => Typed::Float(self.take(len * 4)?.chunks(4).map(|c| u32::from_le_bytes(c.try_into().unwrap())).collect()),
+            7 => Typed::Str(self.take(len)?.to_vec()),
+            t => return Err(format!("unknown type code {t}")),
+        })
+    }
+    fn typed(&mut self) -> Result<Typed, String> {
+        let (ty, len) = self.descriptor()?;
+        self.values(ty, len)
+    }
+}
+
+pub fn parse_record(shared: &[u8], indiv: &[u8]) -> Result<RawRecord, String> {
+    let mut c = Cur { b: shared, at: 0 };
+    let chrom = c.i32()?;
+    let pos = c.i32()?;
+    let rlen = c.i32()?;
+    let qual = c.u32()?;
+    let n_info = c.u16()?;
+    let n_allele = c.u16()?;
+    let nfs = c.u32()?;
+    let n_sample = nfs & 0x00FF_FFFF;
+    let n_fmt = (nfs >> 24) as u8;
+    let id = c.typed().map_err(|e| format!("ID: {e}"))?;
+    let mut alleles = Vec::new();
+    for i in 0..n_allele {
+        alleles.push(c.typed().map_err(|e| format!("allele {i}: {e}"))?);
+    }
+    let filter = c.typed().map_err(|e| format!("FILTER: {e}"))?;
+    let mut info = Vec::new();
+    for i in 0..n_info {
+        let k = c.typed().map_err(|e| format!("INFO key {i}: {e}"))?;
+        let v = c.typed().map_err(|e| format!("INFO value {i}: {e}"))?;
+        info.push((k, v));
+    }
+    if !c.done() {
+        return Err(format!("{} bytes of the shared block are left after n_info={} fields", shared.len() - c.at, n_info));
+    }
+    let mut c = Cur { b: indiv, at: 0 };
+    let mut format = Vec::new();
+    for i in 0..n_fmt {
+        let key = c.typed().map_err(|e| format!("FORMAT key {i}: {e}"))?;
+        let (ty, len) = c.descriptor().map_err(|e| format!("FORMAT {i} type: {e}"))?;
+        let mut samples = Vec::new();
+        for s in 0..n_sample {
+            samples.push(c.values(ty, len).map_err(|e| format!("FORMAT {i} sample {s}: {e}"))?);
+        }
+        format.push(RawFormat { key, samples, len });
+    }
+    if !c.done() {
+        return Err(format!("{} bytes of the individual block are left after n_fmt={} fields", indiv.len() - c.at, n_fmt));
+    }
+    Ok(RawRecord { l_shared: shared.len() as u32, l_indiv: indiv.len() as u32, chrom, pos, rlen, qual, n_info, n_allele, n_sample, n_fmt, id, alleles, filter, info, format })
+}
+
+/// Parse a whole uncompressed BCF stream. Framing (l_shared / l_indiv) is followed even when a
+/// record's content does not parse: such a record is `Err` in `records`. `ranges[i]` is the byte
+/// range of record i in the stream (lengths included).
+pub fn parse(stream: &[u8]) -> Result<RawFile, String> {
+    let mut c = Cur { b: stream, at: 0 };
+    let magic = c.take(5).map_err(|e| format!("magic: {e}"))?;
+    if &magic[..3] != b"BCF" {
+        return Err(format!("magic is {:?}", &magic[..3]));
+    }
+    let (major, minor) = (magic[3], magic[4]);
+    let l_text = c.u32()? as usize;
+    let text = c.take(l_text).map_err(|e| format!("header text: {e}"))?;
+    if text.last() != Some(&0) {
+        return Err("header text is not NUL-terminated".into());
+    }
+    let end = text.iter().position(|&b| b == 0).unwrap_or(text.len());
+    let text = text[..end].to_vec();
+    let records_at = c.at;
+    let mut records = Vec::new();
+    let mut ranges = Vec::new();
+    while !c.done() {
+        let i = records.len();
+        let start = c.at;
+        let l_shared = c.u32().map_err(|e| format!("record {i} l_shared: {e}"))? as usize;
+        let l_indiv = c.u32().map_err(|e| format!("record {i} l_indiv: {e}"))? as usize;
+        let shared = c.take(l_shared).map_err(|e| format!("record {i} shared block: {e}"))?;
+        let indiv = c.take(l_indiv).map_err(|e| format!("record {i} individual block: {e}"))?;
+        ranges.push(start..c.at);
+        if l_shared < 24 {
+            records.push(Err(format!("l_shared = {l_shared} < 24")));
+        } else {
+            records.push(parse_record(shared, indiv));
+        }
+    }
+    Ok(RawFile { major, minor, text, records_at, records, ranges })
+}
+
+/// Re-frame a stream with a different header text (used to inject `IDX=` fields, which the
+/// repository's header writer cannot emit): magic + l_text + text + NUL + the records unchanged.
+pub fn with_header_text(stream: &[u8], file: &RawFile, new_text: &[u8]) -> Vec<u8> {
+    let mut out = Vec::with_capacity(stream.len() + new_text.len());
+    out.extend_from_slice(&stream[..5]);
+    out.extend_from_slice(&((new_text.len() + 1) as u32).to_le_bytes());
+    out.extend_from_slice(new_text);
+    out.push(0);
+    out.extend_from_slice(&stream[file.records_at..]);
+    out
+}
